@@ -7,6 +7,8 @@ func verifPass(*Scheduler, *ExecutionGraph) {}
 
 func verifStatus(*Stage, int32) {}
 
+func verifStatusStored(*Stage, int32) {}
+
 func verifSchedule(*Scheduler, *ExecutionGraph, bool, error) {}
 
 func verifRun(*Stage, bool, error) {}
